@@ -283,6 +283,7 @@ def stepOk (c : Cmp) (st : DbState) : Step → Prop
   | .addL0 f => FileOk c f ∧ st.mem = [] ∧ st.imm = none ∧
       (∀ g ∈ st.level 0, g.num < f.num) ∧
       (∀ r ∈ sourceRuns st, NewerThan c f.run r) ∧ (∀ e ∈ f.run, e.seq ≤ st.lastSeq ∧ e.kind ≤ 1) ∧
+      (∀ x ∈ f.run, ∀ y ∈ f.run, c.compare x.ukey y.ukey = .eq → x.seq = y.seq → x = y) ∧
       (∀ g ∈ allFiles st, g.num ≠ f.num)
   | .compact level in0 in1 outs =>
       let ins := (pickNums (st.level level) in0 ++ pickNums (st.level (level + 1)) in1).flatMap (·.run)
@@ -291,6 +292,9 @@ def stepOk (c : Cmp) (st : DbState) : Step → Prop
       (∀ n ∈ in0, ∃ f ∈ st.level level, f.num = n) ∧ (∀ n ∈ in1, ∃ f ∈ st.level (level + 1), f.num = n) ∧
       -- (a) what stays in `level` is newer, key by key, than what leaves it
       (∀ g ∈ removeNums (st.level level) in0, ∀ f ∈ pickNums (st.level level) in0, NewerThan c g.run f.run) ∧
+      -- (a') what stays in `level+1` is newer, key by key, than every input (boundary expansion on level+1:
+      --      without it a dropped tombstone could uncover an older version left in an unpicked level+1 file)
+      (∀ g ∈ removeNums (st.level (level + 1)) in1, NewerThan c g.run ins) ∧
       -- (b) outputs are well-formed files and the new level+1 is sorted and disjoint
       (∀ f ∈ outs, FileOk c f) ∧
       LevelSorted c (addFiles c (level + 1) (removeNums (st.level (level + 1)) in1) outs) ∧
